@@ -314,6 +314,15 @@ where
                     let frac_offset = T::coerce(frac);
                     for (chan, active) in self.channel_mask.iter().enumerate() {
                         if *active {
+                            #[cfg(rubato_verif)]
+                            crate::verif::window(
+                                line!(),
+                                self.buffer[chan].len(),
+                                start_idx + 2 * POLYNOMIAL_LEN_I,
+                                8,
+                                wave_out[chan].as_mut().len(),
+                                n,
+                            );
                             unsafe {
                                 let buf = self.buffer.get_unchecked(chan).get_unchecked(
                                     (start_idx + 2 * POLYNOMIAL_LEN_I) as usize
@@ -339,6 +348,15 @@ where
                     let frac_offset = T::coerce(frac);
                     for (chan, active) in self.channel_mask.iter().enumerate() {
                         if *active {
+                            #[cfg(rubato_verif)]
+                            crate::verif::window(
+                                line!(),
+                                self.buffer[chan].len(),
+                                start_idx + 2 * POLYNOMIAL_LEN_I,
+                                6,
+                                wave_out[chan].as_mut().len(),
+                                n,
+                            );
                             unsafe {
                                 let buf = self.buffer.get_unchecked(chan).get_unchecked(
                                     (start_idx + 2 * POLYNOMIAL_LEN_I) as usize
@@ -364,6 +382,15 @@ where
                     let frac_offset = T::coerce(frac);
                     for (chan, active) in self.channel_mask.iter().enumerate() {
                         if *active {
+                            #[cfg(rubato_verif)]
+                            crate::verif::window(
+                                line!(),
+                                self.buffer[chan].len(),
+                                start_idx + 2 * POLYNOMIAL_LEN_I,
+                                4,
+                                wave_out[chan].as_mut().len(),
+                                n,
+                            );
                             unsafe {
                                 let buf = self.buffer.get_unchecked(chan).get_unchecked(
                                     (start_idx + 2 * POLYNOMIAL_LEN_I) as usize
@@ -389,6 +416,15 @@ where
                     let frac_offset = T::coerce(frac);
                     for (chan, active) in self.channel_mask.iter().enumerate() {
                         if *active {
+                            #[cfg(rubato_verif)]
+                            crate::verif::window(
+                                line!(),
+                                self.buffer[chan].len(),
+                                start_idx + 2 * POLYNOMIAL_LEN_I,
+                                2,
+                                wave_out[chan].as_mut().len(),
+                                n,
+                            );
                             unsafe {
                                 let buf = self.buffer.get_unchecked(chan).get_unchecked(
                                     (start_idx + 2 * POLYNOMIAL_LEN_I) as usize
@@ -411,6 +447,15 @@ where
                     let start_idx = idx.floor() as isize;
                     for (chan, active) in self.channel_mask.iter().enumerate() {
                         if *active {
+                            #[cfg(rubato_verif)]
+                            crate::verif::window(
+                                line!(),
+                                self.buffer[chan].len(),
+                                start_idx + 2 * POLYNOMIAL_LEN_I,
+                                1,
+                                wave_out[chan].as_mut().len(),
+                                n,
+                            );
                             unsafe {
                                 let point = self
                                     .buffer
@@ -610,6 +655,15 @@ where
                     let frac_offset = T::coerce(frac);
                     for (chan, active) in self.channel_mask.iter().enumerate() {
                         if *active {
+                            #[cfg(rubato_verif)]
+                            crate::verif::window(
+                                line!(),
+                                self.buffer[chan].len(),
+                                start_idx + 2 * POLYNOMIAL_LEN_I,
+                                8,
+                                wave_out[chan].as_mut().len(),
+                                frame,
+                            );
                             unsafe {
                                 let buf = self.buffer.get_unchecked(chan).get_unchecked(
                                     (start_idx + 2 * POLYNOMIAL_LEN_I) as usize
@@ -634,6 +688,15 @@ where
                     let frac_offset = T::coerce(frac);
                     for (chan, active) in self.channel_mask.iter().enumerate() {
                         if *active {
+                            #[cfg(rubato_verif)]
+                            crate::verif::window(
+                                line!(),
+                                self.buffer[chan].len(),
+                                start_idx + 2 * POLYNOMIAL_LEN_I,
+                                6,
+                                wave_out[chan].as_mut().len(),
+                                frame,
+                            );
                             unsafe {
                                 let buf = self.buffer.get_unchecked(chan).get_unchecked(
                                     (start_idx + 2 * POLYNOMIAL_LEN_I) as usize
@@ -658,6 +721,15 @@ where
                     let frac_offset = T::coerce(frac);
                     for (chan, active) in self.channel_mask.iter().enumerate() {
                         if *active {
+                            #[cfg(rubato_verif)]
+                            crate::verif::window(
+                                line!(),
+                                self.buffer[chan].len(),
+                                start_idx + 2 * POLYNOMIAL_LEN_I,
+                                4,
+                                wave_out[chan].as_mut().len(),
+                                frame,
+                            );
                             unsafe {
                                 let buf = self.buffer.get_unchecked(chan).get_unchecked(
                                     (start_idx + 2 * POLYNOMIAL_LEN_I) as usize
@@ -682,6 +754,15 @@ where
                     let frac_offset = T::coerce(frac);
                     for (chan, active) in self.channel_mask.iter().enumerate() {
                         if *active {
+                            #[cfg(rubato_verif)]
+                            crate::verif::window(
+                                line!(),
+                                self.buffer[chan].len(),
+                                start_idx + 2 * POLYNOMIAL_LEN_I,
+                                2,
+                                wave_out[chan].as_mut().len(),
+                                frame,
+                            );
                             unsafe {
                                 let buf = self.buffer.get_unchecked(chan).get_unchecked(
                                     (start_idx + 2 * POLYNOMIAL_LEN_I) as usize
@@ -703,6 +784,15 @@ where
                     let start_idx = idx.floor() as isize;
                     for (chan, active) in self.channel_mask.iter().enumerate() {
                         if *active {
+                            #[cfg(rubato_verif)]
+                            crate::verif::window(
+                                line!(),
+                                self.buffer[chan].len(),
+                                start_idx + 2 * POLYNOMIAL_LEN_I,
+                                1,
+                                wave_out[chan].as_mut().len(),
+                                frame,
+                            );
                             unsafe {
                                 let point = self
                                     .buffer
@@ -1227,5 +1317,69 @@ mod tests {
         let mut resampler =
             FastFixedIn::<f32>::new(ratio, 100.0, PolynomialDegree::Cubic, 1024, 2).unwrap();
         check_ratio!(resampler, ratio, 1000);
+    }
+}
+
+#[cfg(rubato_verif)]
+impl<T> FastFixedIn<T>
+where
+    T: Sample,
+{
+    /// Snapshot of the internal state, for verification harnesses.
+    pub fn verif_state(&self) -> crate::verif::State {
+        let (data_hash, data_len, data_shape) = crate::verif::hash_channels(&[&self.buffer]);
+        crate::verif::State {
+            kind: "FastFixedIn",
+            scalars: vec![
+                ("nbr_channels", self.nbr_channels as u64),
+                ("chunk_size", self.chunk_size as u64),
+                ("last_index", self.last_index.to_bits()),
+                ("resample_ratio", self.resample_ratio.to_bits()),
+                (
+                    "resample_ratio_original",
+                    self.resample_ratio_original.to_bits(),
+                ),
+                ("target_ratio", self.target_ratio.to_bits()),
+                ("max_relative_ratio", self.max_relative_ratio.to_bits()),
+            ],
+            mask: self.channel_mask.clone(),
+            data_hash,
+            data_len,
+            data_shape,
+            scratch_hash: 0,
+        }
+    }
+}
+
+#[cfg(rubato_verif)]
+impl<T> FastFixedOut<T>
+where
+    T: Sample,
+{
+    /// Snapshot of the internal state, for verification harnesses.
+    pub fn verif_state(&self) -> crate::verif::State {
+        let (data_hash, data_len, data_shape) = crate::verif::hash_channels(&[&self.buffer]);
+        crate::verif::State {
+            kind: "FastFixedOut",
+            scalars: vec![
+                ("nbr_channels", self.nbr_channels as u64),
+                ("chunk_size", self.chunk_size as u64),
+                ("needed_input_size", self.needed_input_size as u64),
+                ("last_index", self.last_index.to_bits()),
+                ("current_buffer_fill", self.current_buffer_fill as u64),
+                ("resample_ratio", self.resample_ratio.to_bits()),
+                (
+                    "resample_ratio_original",
+                    self.resample_ratio_original.to_bits(),
+                ),
+                ("target_ratio", self.target_ratio.to_bits()),
+                ("max_relative_ratio", self.max_relative_ratio.to_bits()),
+            ],
+            mask: self.channel_mask.clone(),
+            data_hash,
+            data_len,
+            data_shape,
+            scratch_hash: 0,
+        }
     }
 }
